@@ -16,18 +16,26 @@ func VpC03Multipart() {
 	p := 1 + vp.Choice("nparts", vp.Param("P", 2))
 	body := ""
 	var wantPost, wantFiles, wantFilesNames, wantSizes []string
+	malformed := false
 	total := 0
 	for i := 0; i < p; i++ {
 		k := names[vp.Choice("name", len(names))]
 		v := vp.String("content", vp.Choice("contentlen", vp.Param("VLEN", 1)+1))
 		body += "--B\r\nContent-Disposition: form-data; name=\"" + k + "\""
-		if vp.Choice("isfile", 2) == 1 {
+		kind := vp.Choice("isfile", vp.Param("KINDS", 2))
+		if kind == 2 {
+			// a Content-Disposition that cannot be parsed (a parameter given twice): the part cannot
+			// be attributed, so something has to say so
+			body += "; filename=\"shell.php\"; filename=\"ok.txt\""
+			malformed = true
+		}
+		if kind == 1 {
 			fn := fnames[vp.Choice("filename", len(fnames))]
 			body += "; filename=\"" + fn + "\"\r\nContent-Type: application/octet-stream"
 			wantFiles = append(wantFiles, "\x00="+fn)
 			wantFilesNames = append(wantFilesNames, "\x00="+k)
 			wantSizes = append(wantSizes, fn+"\x00="+vpItoa(len(v)))
-		} else {
+		} else if kind == 0 {
 			wantPost = append(wantPost, k+"\x00="+v)
 		}
 		total += len(v)
@@ -47,6 +55,9 @@ func VpC03Multipart() {
 	vars := tx.Variables()
 	said := vars.RequestBodyError().Get() == "1" || vars.MultipartStrictError().Get() == "1" || tx.Interruption() != nil
 	vp.Observe("body", body)
+	if malformed {
+		vp.Assert(said, "a part whose Content-Disposition cannot be parsed (duplicate filename parameter) was accepted silently: no MULTIPART_STRICT_ERROR, REQBODY_ERROR or interruption")
+	}
 	if !said {
 		vp.Assert(vpMultisetEq(vpC03Dump(vars.ArgsPost().FindAll()), wantPost), "ARGS_POST differs from the fields of the multipart body (dropped, merged or renamed) and nothing reports it")
 		vp.Assert(vpMultisetEq(vpC03Dump(vars.Files().FindAll()), wantFiles), "FILES differs from the uploaded file names and nothing reports it")
